@@ -180,7 +180,7 @@ mod kani {
     macro_rules! int_replay { ($($t:ty),*) => { $(impl Replay for $t { fn from_le(b: &[u8]) -> Self { let mut a = [0u8; std::mem::size_of::<$t>()]; a.copy_from_slice(&b[..std::mem::size_of::<$t>()]); <$t>::from_le_bytes(a) } })* } }
     int_replay!(u8, u16, u32, u64, u128, usize, i8, i16, i32, i64, isize);
     impl Replay for bool { fn from_le(b: &[u8]) -> Self { b[0] != 0 } }
-    impl Replay for char { fn from_le(b: &[u8]) -> Self { char::from_u32(u32::from_le(b)).expect("REPLAY: invalid char") } }
+    impl Replay for char { fn from_le(b: &[u8]) -> Self { char::from_u32(<u32 as Replay>::from_le(b)).expect("REPLAY: invalid char") } }
     pub fn next() -> Vec<u8> { VALS.with(|v| { let mut v = v.borrow_mut(); assert!(!v.is_empty(), "REPLAY: counterexample has too few values"); v.remove(0) }) }
     pub fn any<T: Replay>() -> T { T::from_le(&next()) }
     pub fn any_array<T: Replay, const N: usize>() -> [T; N] { std::array::from_fn(|_| any::<T>()) }
@@ -236,21 +236,26 @@ def playback_and_replay(set_name, harness, timeout=1500):
         info["note"] = "Kani produced no concrete values (timeout or unsupported)"
         return info
     info["counterexample"] = cx
+    info["replay"] = native_replay(set_name, harness, cx["byte_vectors"])
+    return info
+
+
+def native_replay(set_name, harness, byte_vectors):
+    """run the harness function natively (cargo test) on concrete values, against /repo's current working tree"""
     cfg = SETS[set_name]()
-    mod = to_replay_module(cfg["module"], harness, cx["byte_vectors"])
-    crate_dir = cfg["append_to"].split("/")[0]
+    mod = to_replay_module(cfg["module"], harness, byte_vectors)
     with scratch.Scratch("kreplay") as sc:
         sc.write(cfg["append_to"], mod, append=True)
         cmd = ["cargo", "test", "--offline", "-p", cfg["package"], "--lib", "--", "verif_replay_counterexample", "--nocapture"]
         try:
             p = subprocess.run(cmd, cwd=sc.repo, env=scratch.cargo_env("target-replay"), capture_output=True, text=True, timeout=1500)
+            both = p.stdout + p.stderr
             out = p.stdout[-3000:] + "\n--- stderr (tail) ---\n" + p.stderr[-3000:]
-            reproduced = p.returncode != 0 and "verif_replay_counterexample" in (p.stdout + p.stderr) and "panicked" in (p.stdout + p.stderr) \
-                and "REPLAY:" not in (p.stdout + p.stderr) and "error[" not in p.stderr and "could not compile" not in p.stderr
-            info["replay"] = {"cmd": " ".join(cmd), "exit": p.returncode, "output": out, "reproduced": reproduced}
+            reproduced = p.returncode != 0 and "verif_replay_counterexample ... FAILED" in both and "panicked" in both \
+                and "REPLAY:" not in both and "could not compile" not in both
+            return {"cmd": " ".join(cmd), "exit": p.returncode, "output": out, "reproduced": reproduced}
         except subprocess.TimeoutExpired:
-            info["replay"] = {"cmd": " ".join(cmd), "exit": None, "output": "timeout", "reproduced": False}
-    return info
+            return {"cmd": " ".join(cmd), "exit": None, "output": "timeout", "reproduced": False}
 
 
 def run_for_property(prop, cfg, tier, seed):
